@@ -1,3 +1,4 @@
+import Op2Proofs.GenTactics
 import Op2Proofs.SortLemmas
 import Op2Proofs.PathLemmas6
 import Op2Model.Path
@@ -133,15 +134,19 @@ theorem C19_log2_exact : ∀ k, k < 32 → Bits.log2OfPow2 (2 ^ k) = k := by dec
 /-! ## bridging lemmas: the formulas translated from the current C++ are the model's -/
 
 open Op2.Gen.Formulas in
-theorem gen_Log2OfPowerOf2_powers : ∀ k : Nat, k < 32 → gen_Log2OfPowerOf2 ((2 : Int) ^ k) = k := by decide
+theorem gen_Log2OfPowerOf2_powers : gen_Log2OfPowerOf2_translated = true →
+    ∀ k : Nat, k < 32 → gen_Log2OfPowerOf2 ((2 : Int) ^ k) = k := by decide
 
 open Op2.Gen.Formulas in
 /-- the translated `IsPowerOf2` accepts the 32 powers of two … -/
-theorem gen_IsPowerOf2_powers : ∀ k : Nat, k < 32 → gen_IsPowerOf2 ((2 : Int) ^ k) = 1 := by decide
+theorem gen_IsPowerOf2_powers : gen_IsPowerOf2_translated = true →
+    ∀ k : Nat, k < 32 → gen_IsPowerOf2 ((2 : Int) ^ k) = 1 := by decide
 
-open Op2.Gen.Formulas in
+open Op2.Gen.Formulas Op2.GenTactics in
 /-- … and agrees with the model on every 32-bit value -/
-theorem gen_IsPowerOf2_eq (v : Nat) (hv : v < W32) : gen_IsPowerOf2 (v : Int) = if Bits.isPow2 v then 1 else 0 := by
+theorem gen_IsPowerOf2_eq (v : Nat) (hv : v < W32) : gen_IsPowerOf2_translated = true →
+    gen_IsPowerOf2 (v : Int) = if Bits.isPow2 v then 1 else 0 := by
+  gen_guard =>
   unfold gen_IsPowerOf2 Bits.isPow2 castU
   by_cases h0 : v = 0
   · subst h0; simp
